@@ -100,6 +100,7 @@ func (o *Operations) Move(from string, to string) error {
 		hdr.PAXRecords[records.STFSRecordVersion] = records.STFSRecordVersion1
 		hdr.PAXRecords[records.STFSRecordAction] = records.STFSRecordActionUpdate
 		hdr.PAXRecords[records.STFSRecordReplacesName] = dbhdr.Name
+		hdr.PAXRecords[records.STFSRecordReplacesContent] = records.STFSRecordReplacesContentFalse // The stored records may say `true`, but a move record carries no content
 
 		hdrs = append(hdrs, *hdr)
 
